@@ -205,6 +205,87 @@ def run(F, rep):
     if n_link < 6:
         raise AnalysisBroken('C03.S4: only %d AST links found in analyser.cpp (8 confirmed)' % n_link)
 
+    # ------------------------------------------------------------------ L: which side holds the unknown
+    rep.rule('C03.L1', 'the analyser turns an equation round (swapLeftAndRightChildren) exactly when its right-hand side IS its unknown: the variable itself for a non-ODE equation, the derivative of the state for an ODE; '
+                       'decided by evaluating the swap condition (through variableOnRhs/variableOnLhsRhs) on the abstract cases (equation type) x (shape of the right-hand side)')
+    am = F.fn1('Analyser::AnalyserImpl::analyseModel')
+    sw_calls = [c for c in am.walk() if c.get('k') == 'Call' and c.get('fn') == 'swapLeftAndRightChildren']
+    if len(sw_calls) != 1:
+        raise AnalysisBroken('analyseModel: swapLeftAndRightChildren call vanished (%d)' % len(sw_calls))
+    conds = [cnd for cnd, br, st in enclosing_conditions(am, sw_calls[0]) if br == 'then' and any(x.get('k') == 'Call' and x.get('fn', '').startswith('variableOn') for x in walk(cnd))]
+    if len(conds) != 1:
+        raise AnalysisBroken('analyseModel: the condition of the swap no longer consults variableOnRhs')
+
+    def ev(f, e, st, depth=0):
+        k = e.get('k')
+        c = e.get('c', [])
+        if depth > 8:
+            raise AnalysisBroken('C03.L1: condition too deep')
+        if k == 'Paren' and c:
+            return ev(f, c[0], st, depth)
+        if k == 'Bool':
+            return bool(e.get('v'))
+        if k == 'Bin' and e.get('op') == '&&':
+            return ev(f, c[0], st, depth) and ev(f, c[1], st, depth)
+        if k == 'Bin' and e.get('op') == '||':
+            return ev(f, c[0], st, depth) or ev(f, c[1], st, depth)
+        if k == 'Un' and e.get('op') == '!':
+            return not ev(f, c[0], st, depth)
+        if (k == 'Bin' and e.get('op') in ('==', '!=')) and len(c) == 2:
+            en = [x for x in c if x.get('k') == 'Ref' and x.get('dk') == 'enumc']
+            ot = [x for x in c if not (x.get('k') == 'Ref' and x.get('dk') == 'enumc')]
+            if len(en) == 1 and len(ot) == 1:
+                q = en[0].get('q', '')
+                t = render(ot[0])
+                if 'Equation::Type::' in q and 'Ast' not in q:      # (internal or public) equation type
+                    v = (st['eq'] == 'ODE') == (en[0]['n'] == 'ODE') if en[0]['n'] == 'ODE' else None
+                    if v is None:
+                        raise AnalysisBroken('C03.L1: equation type compared with %s' % en[0]['n'])
+                    return v if e['op'] == '==' else not v
+                if 'AnalyserEquationAst::Type::' in q and t.endswith('->type()'):
+                    node = 'rhs' if 'rightChild()' in t or t.startswith('astChild') else None
+                    if node is None:
+                        raise AnalysisBroken('C03.L1: type of an unexpected node is tested: %s' % t)
+                    kind = {'CI_same': 'CI', 'DIFF_same': 'DIFF', 'other': '#'}[st['rhs']]
+                    v = kind == en[0]['n']
+                    return v if e['op'] == '==' else not v
+        if k == 'Call' and e.get('opc') == '==' and 'name()' in render(e):
+            return st['rhs'] != 'other'        # the names agree exactly in the *_same shapes
+        if k == 'Call' and not e.get('opc') and e.get('fn', '').startswith('variableOn'):
+            g = F.funcs.get(e.get('ck'))
+            if g is None:
+                raise AnalysisBroken('C03.L1: %s not resolved' % e.get('fn'))
+            sws = [x for x in g.walk() if x.get('k') == 'Switch']
+            if sws:
+                kind = {'CI_same': 'CI', 'DIFF_same': 'DIFF', 'other': None}[st['rhs']]
+                chosen = None
+                dflt = None
+                for cs in walk(sws[0]):
+                    if cs.get('k') == 'Case' and label_enum(cs) == kind:
+                        chosen = cs
+                    if cs.get('k') == 'Default':
+                        dflt = cs
+                tgt = chosen if chosen is not None else dflt
+                rets = [r for r in walk(tgt) if r.get('k') == 'Return' and r.get('c')] if tgt is not None else []
+                if not rets:
+                    raise AnalysisBroken('C03.L1: no return under the case for %s in %s' % (kind, g.short))
+                return ev(g, rets[0]['c'][0], st, depth + 1)
+            rets = [r for r in g.walk() if r.get('k') == 'Return' and r.get('c')]
+            if len(rets) != 1:
+                raise AnalysisBroken('C03.L1: %s has %d returns' % (g.short, len(rets)))
+            # variableOnRhs(v) = variableOnLhsRhs(v, mAst->rightChild()); variableOnLhsOrRhs is not what the swap may consult
+            if 'leftChild()' in render(rets[0]['c'][0]):
+                raise AnalysisBroken('C03.L1: the swap consults the left-hand side')
+            return ev(g, rets[0]['c'][0], st, depth + 1)
+        raise AnalysisBroken('C03.L1: cannot interpret `%s`' % render(e)[:70])
+    want = {('ODE', 'CI_same'): False, ('ODE', 'DIFF_same'): True, ('OTHER', 'CI_same'): True, ('ODE', 'other'): False, ('OTHER', 'other'): False}
+    for (eqt, rhs), w in want.items():
+        got = ev(am, conds[0], {'eq': eqt, 'rhs': rhs})
+        what = {'CI_same': 'the variable itself', 'DIFF_same': 'the derivative of the variable', 'other': 'something else'}[rhs]
+        rep.check(got == w, 'C03.L1', '%s|rhs=%s' % (eqt, rhs), am.where(sw_calls[0]),
+                  'for %s equation whose right-hand side is %s the sides are %s, but the unknown is %s' % ('an ODE' if eqt == 'ODE' else 'a non-ODE', what, 'swapped' if got else 'not swapped', 'on the left' if not w else 'on the right'),
+                  'swapped' if w else 'left as written')
+
     # ------------------------------------------------------------------ E
     rep.rule('C03.E1', 'generateEquationCode emits every dependency of an equation before the equation itself and drops the equation from the work list before recursing')
     ge = [f for f in F.fn('Generator::GeneratorImpl::generateEquationCode') if len(f.params) == 4]
